@@ -62,6 +62,13 @@ def main(argv=None):
             print("HARNESS-ERROR %s: vacuity guard %r is zero" % (pid, g))
             return 2
     nviol = t.c.get("violations", 0)
+    if core.CAPPED:
+        cov["exhaustive"] = False
+        cov["capped"] = list(core.CAPPED)
+        if not nviol:
+            for c in core.CAPPED:
+                print("HARNESS-ERROR %s: %s - the bounded space could not be covered, nothing is claimed" % (pid, c))
+            return 2
     core.write_evidence(pid, args.tier, cov, tm.s(), nviol, res.get("assumptions", ()))
     for kfid, cnt in sorted(t.known.items()):
         what = res.get("known", {}).get(kfid, {}).get("what", "")
